@@ -1,323 +1,23 @@
-(* TerminationTotal.v -- no constructor call inside a class derivative panics when the potential of
-   the term is at most U32MAX: the loop bounds that the derivative function adds or multiplies are
-   bounded by the potential. *)
+(* TerminationTotal.v -- no constructor call inside a class derivative panics.
+
+   Before the repair of D11 this held only for terms of potential <= U32MAX (the loop bounds that the
+   derivative function adds or multiplies are bounded by the potential) and this file proved that
+   bounded statement.  With the repaired ReManager::concat / mk_loop (loop merging and loop-of-loop
+   flattening guarded by checked arithmetic) it holds for every term: [cached_deriv_total] of
+   DerivProofs.v.  What remains here is its combination with the potential invariant of the
+   termination argument: a class derivative returns, and what it returns is no larger. *)
 Require Import Base CharSet Partition PartitionSpec LoopRange Regex Inclusion Constructors Deriv Denote Sem.
 Require Import Lang PartitionProofs LoopRangeProofs ManagerProofs ConstructorProofs RunProofs DerivProofs.
 Require Import Termination TerminationPot TerminationNorm TerminationDeriv.
-Require ExploreProofs.
 Open Scope N_scope.
 
-Lemma add32_ok x y : x + y <= U32MAX -> add32 x y = Some (x + y).
-Proof. intros H. unfold add32. apply N.leb_le in H. rewrite H. reflexivity. Qed.
-Lemma mul32_ok x y : x * y <= U32MAX -> mul32 x y = Some (x * y).
-Proof. intros H. unfold mul32. apply N.leb_le in H. rewrite H. reflexivity. Qed.
-
-Lemma lr_add_ok a ha c hc : a + c <= U32MAX ->
-  (match ha, hc with Some b, Some d => b + d <= U32MAX | _, _ => True end) ->
-  exists r, lr_add (LR a ha) (LR c hc) = Some r.
+(* a class derivative (valid class id) returns a term of no larger potential and keeps the invariants:
+   no hypothesis on the size of the term or of its loop bounds *)
+Theorem cached_deriv_total_pot c0 e m cid :
+  dwf m -> hon m -> nn c0 m -> owned m e -> pvalid (rcls e) cid = true ->
+  exists m' d, cached_deriv e m cid = Some (m', d) /\
+    (dwf m' /\ ext m m' /\ owned m' d) /\ phi d <= phi e /\ hon m' /\ nn c0 m'.
 Proof.
-  intros H1 H2. unfold lr_add. cbn [lr_start]. rewrite (add32_ok a c H1). cbn [bind].
-  destruct ha as [b|], hc as [d|]; try (eexists; reflexivity).
-  rewrite (add32_ok b d H2). cbn [bind]. eexists; reflexivity.
+  intros Dm Hm Nm Oe Hv. destruct (cached_deriv_total e m cid Dm Oe Hv) as (m' & d & E).
+  exists m', d. split; [exact E|]. exact (cached_deriv_pot c0 e m cid m' d Dm Hm Nm Oe Hv E).
 Qed.
-
-(* lower bounds of lpa / lvl in terms of the counters *)
-Lemma lvl_ge_hi v i j : 1 <= v -> j <= lvl v (LR i (Some j)).
-Proof. intros Hv. cbn [lvl]. assert (j * 1 <= j * v) by (apply N.mul_le_mono_l; exact Hv). lia. Qed.
-Lemma lvl_ge_lo v i : 1 <= v -> i + 1 <= lvl v (LR i None).
-Proof. intros Hv. cbn [lvl]. assert (i * 1 <= i * v) by (apply N.mul_le_mono_l; exact Hv). lia. Qed.
-Lemma lpa_ge_hi p v i j : 1 <= v -> p + j <= lpa p v (LR i (Some j)) + 1.
-Proof. intros Hv. cbn [lpa]. assert ((j - 1) * 1 <= (j - 1) * v) by (apply N.mul_le_mono_l; exact Hv). lia. Qed.
-Lemma lpa_ge_lo p v i : 1 <= v -> p + i <= lpa p v (LR i None).
-Proof. intros Hv. cbn [lpa]. assert ((i - 1) * 1 <= (i - 1) * v) by (apply N.mul_le_mono_l; exact Hv). lia. Qed.
-
-Lemma phi_loop e x r : rnode e = NLoop x r -> phi e = CW + lpa (phi x) (vl x) r /\ vl e = lvl (vl x) r.
-Proof.
-  intros K. split.
-  - rewrite phi_nonunion; [|rewrite is_union_node, K; reflexivity]. rewrite pa_node, K. reflexivity.
-  - rewrite vl_node, K. reflexivity.
-Qed.
-
-(* ------------------------------------------------------------------------------------------ *)
-(** * concat *)
-
-Theorem concat_total : forall e1 m e2,
-  wf m -> owned m e1 -> owned m e2 -> N.max (phi e1 + vl e2) (pa e2) <= U32MAX ->
-  exists m' t, concat e1 m e2 = Some (m', t).
-Proof.
-  induction e1 as [e1 IH] using re_induction. intros m e2 W O1 O2 HB.
-  pose proof (phi_ge2 e1) as H21. pose proof (vl_pos e1) as Hv1. pose proof (vl_pos e2) as Hv2.
-  assert (Hmk : forall k, not_compl k -> exists m' t, make m k = Some (m', t)) by (intros k Hk; apply make_total; auto).
-  rewrite concat_unfold.
-  destruct (is_empty_node e1); [eexists; eexists; reflexivity|].
-  destruct (is_empty_node e2); [eexists; eexists; reflexivity|].
-  destruct (is_eps_node e1); [eexists; eexists; reflexivity|].
-  destruct (is_eps_node e2); [eexists; eexists; reflexivity|].
-  unfold concat_rules.
-  destruct (rule5 e1 e2) as [rng|] eqn:R5.
-  { unfold rule5 in R5. destruct (loop_of e2) as [[y r0]|] eqn:E; [|discriminate].
-    destruct (re_eqb e1 y) eqn:Q; [|discriminate]. inversion R5; subst r0. apply loop_of_some in E.
-    destruct (loop_child m e2 y rng W O2 E) as (Hy & Hv & _).
-    apply (re_eqb_owned m e1 y O1 Hy) in Q. subst y.
-    destruct (phi_loop e2 e1 rng E) as [_ Ev]. 
-    assert (Hr : exists r, lr_add_point rng 1 = Some r).
-    { destruct rng as [i [j|]]; unfold lr_add_point, lr_point; apply lr_add_ok; cbn [lr_valid] in Hv.
-      - pose proof (lvl_ge_hi (vl e1) i j Hv1). lia.
-      - pose proof (lvl_ge_hi (vl e1) i j Hv1). lia.
-      - pose proof (lvl_ge_lo (vl e1) i Hv1). lia.
-      - exact I. }
-    destruct Hr as [r Hr]. rewrite Hr. cbn [bind]. apply Hmk. exact I. }
-  destruct (rule5 e2 e1) as [rng|] eqn:R6.
-  { unfold rule5 in R6. destruct (loop_of e1) as [[y r0]|] eqn:E; [|discriminate].
-    destruct (re_eqb e2 y) eqn:Q; [|discriminate]. inversion R6; subst r0. apply loop_of_some in E.
-    destruct (loop_child m e1 y rng W O1 E) as (Hy & Hv & _).
-    apply (re_eqb_owned m e2 y O2 Hy) in Q. subst y.
-    destruct (phi_loop e1 e2 rng E) as [Ep _]. pose proof (phi_ge2 e2) as H22.
-    assert (Hr : exists r, lr_add_point rng 1 = Some r).
-    { destruct rng as [i [j|]]; unfold lr_add_point, lr_point; apply lr_add_ok; cbn [lr_valid] in Hv.
-      - pose proof (lpa_ge_hi (phi e2) (vl e2) i j Hv2). unfold CW in *. lia.
-      - pose proof (lpa_ge_hi (phi e2) (vl e2) i j Hv2). unfold CW in *. lia.
-      - pose proof (lpa_ge_lo (phi e2) (vl e2) i Hv2). unfold CW in *. lia.
-      - exact I. }
-    destruct Hr as [r Hr]. rewrite Hr. cbn [bind]. apply Hmk. exact I. }
-  destruct (rule7 e1 e2) as [[[x xr] yr]|] eqn:R7.
-  { unfold rule7 in R7.
-    destruct (loop_of e1) as [[x1 r1]|] eqn:E1; [|discriminate].
-    destruct (loop_of e2) as [[x2 r2]|] eqn:E2; [|discriminate].
-    destruct (re_eqb x1 x2) eqn:Q; [|discriminate]. inversion R7; subst x1 r1 r2.
-    apply loop_of_some in E1, E2.
-    destruct (loop_child m e1 x xr W O1 E1) as (Hx & Hvx & _).
-    destruct (loop_child m e2 x2 yr W O2 E2) as (Hy & Hvy & _).
-    apply (re_eqb_owned m x x2 Hx Hy) in Q. subst x2.
-    destruct (phi_loop e1 x xr E1) as [Ep _]. destruct (phi_loop e2 x yr E2) as [_ Ev].
-    pose proof (phi_ge2 x) as H2x. pose proof (vl_pos x) as Hvx1.
-    assert (Hr : exists r, lr_add xr yr = Some r).
-    { destruct xr as [a [b|]], yr as [c [d|]]; apply lr_add_ok; cbn [lr_valid] in Hvx, Hvy;
-        try exact I;
-        try (pose proof (lpa_ge_hi (phi x) (vl x) a b Hvx1));
-        try (pose proof (lpa_ge_lo (phi x) (vl x) a Hvx1));
-        try (pose proof (lvl_ge_hi (vl x) c d Hvx1));
-        try (pose proof (lvl_ge_lo (vl x) c Hvx1)); unfold CW in *; lia. }
-    destruct Hr as [r Hr]. rewrite Hr. cbn [bind]. apply Hmk. exact I. }
-  destruct (re_eqb e1 e2); [apply Hmk; exact I|].
-  assert (Hdef : exists m' t, (if rnul e1 && re_eqb e2 (m_full m) then Some (m, e2) else make m (NConcat e1 e2)) = Some (m', t)).
-  { destruct (rnul e1 && re_eqb e2 (m_full m)); [eexists; eexists; reflexivity | apply Hmk; exact I]. }
-  destruct (rnode e1) as [| |s|x y|x xr|x|l|l] eqn:K; try exact Hdef.
-  destruct (wf_child m W e1 x O1) as [Ox _]; [rewrite K; cbn; auto|].
-  destruct (wf_child m W e1 y O1) as [Oy _]; [rewrite K; cbn; auto|].
-  assert (Ep : phi e1 = CW + N.max (phi x + vl y) (pa y)).
-  { rewrite phi_nonunion; [|rewrite is_union_node, K; reflexivity]. rewrite pa_node, K. reflexivity. }
-  pose proof (phi_le y) as Hy.
-  destruct (IH y (or_intror (or_introl eq_refl)) m e2 W Oy O2) as (m1 & rt & C1); [lia|].
-  rewrite C1. cbn [bind].
-  destruct (concat_ok y m e2 m1 rt W Oy O2 C1) as (W1 & X1 & Ort & _).
-  destruct (concat_pot y m e2 m1 rt W Oy O2 C1) as [P1 V1].
-  apply (IH x (or_introl eq_refl) m1 rt W1 (ext_owned m m1 x X1 Ox) Ort). lia.
-Qed.
-
-(* ------------------------------------------------------------------------------------------ *)
-(** * mk_loop *)
-
-Lemma mulv_ge n v : 1 <= v -> n <= n * v.
-Proof. intros Hv. rewrite <- (N.mul_1_r n) at 1. apply N.mul_le_mono_l. exact Hv. Qed.
-
-Lemma flat_bounds p v xr rg : 1 <= v -> 2 <= p -> lr_valid xr -> lr_valid rg -> lr_is_zero rg = false ->
-  let L := lpa (CW + lpa p v xr) (lvl v xr) rg in
-  lr_start xr * lr_start rg <= L /\
-  match xr with
-  | LR a (Some b) => lr_start rg * (b - a) <= L /\ match rg with LR _ (Some d) => b * d <= L | _ => True end
-  | _ => True
-  end.
-Proof.
-  intros Hv Hp Vx Vr Z. cbv zeta. unfold CW.
-  destruct xr as [a [b|]], rg as [c [d|]]; cbn [lr_valid lr_start lpa lvl] in *.
-  - pose proof (zero_fin c d (proj1 Vr) Z) as Hd.
-    assert (Hbd : b * d <= 1 + (p + (b - 1) * v) + (d - 1) * N.max 1 (b * v)).
-    { destruct (Npred_ex b) as [->|[b' ->]]; [lia|]. destruct (Npred_ex d) as [->|[d' ->]]; [lia|].
-      replace (b' + 1 - 1) with b' by lia. replace (d' + 1 - 1) with d' by lia.
-      pose proof (mulv_ge b' v Hv). pose proof (mulv_ge (b' + 1) v Hv).
-      assert (d' * (b' + 1) <= d' * N.max 1 ((b' + 1) * v)) by (apply N.mul_le_mono_l; lia).
-      replace ((b' + 1) * (d' + 1)) with (b' + 1 + d' * (b' + 1)) by ring. lia. }
-    assert (a * c <= b * d) by (apply N.mul_le_mono; lia).
-    assert (c * (b - a) <= d * b) by (apply N.mul_le_mono; lia).
-    rewrite (N.mul_comm d b) in *. lia.
-  - assert (Hbc : b * c <= 1 + (p + (b - 1) * v) + 1 + (c - 1) * N.max 1 (b * v)).
-    { destruct (Npred_ex b) as [->|[b' ->]]; [lia|]. destruct (Npred_ex c) as [->|[c' ->]]; [lia|].
-      replace (b' + 1 - 1) with b' by lia. replace (c' + 1 - 1) with c' by lia.
-      pose proof (mulv_ge b' v Hv). pose proof (mulv_ge (b' + 1) v Hv).
-      assert (c' * (b' + 1) <= c' * N.max 1 ((b' + 1) * v)) by (apply N.mul_le_mono_l; lia).
-      replace ((b' + 1) * (c' + 1)) with (b' + 1 + c' * (b' + 1)) by ring. lia. }
-    assert (a * c <= b * c) by (apply N.mul_le_mono_r; lia).
-    assert (c * (b - a) <= c * b) by (apply N.mul_le_mono_l; lia).
-    rewrite (N.mul_comm c b) in *. lia.
-  - pose proof (zero_fin c d (proj1 Vr) Z) as Hd.
-    assert (Had : a * d <= 1 + (p + 1 + (a - 1) * v) + (d - 1) * (a * v + 1)).
-    { destruct (Npred_ex a) as [->|[a' ->]]; [lia|]. destruct (Npred_ex d) as [->|[d' ->]]; [lia|].
-      replace (a' + 1 - 1) with a' by lia. replace (d' + 1 - 1) with d' by lia.
-      pose proof (mulv_ge a' v Hv). pose proof (mulv_ge (a' + 1) v Hv).
-      assert (d' * (a' + 1) <= d' * ((a' + 1) * v + 1)) by (apply N.mul_le_mono_l; lia).
-      replace ((a' + 1) * (d' + 1)) with (a' + 1 + d' * (a' + 1)) by ring. lia. }
-    assert (a * c <= a * d) by (apply N.mul_le_mono_l; lia). lia.
-  - assert (Hac : a * c <= 1 + (p + 1 + (a - 1) * v) + 1 + (c - 1) * (a * v + 1)); [|lia].
-    destruct (Npred_ex a) as [->|[a' ->]]; [lia|]. destruct (Npred_ex c) as [->|[c' ->]]; [lia|].
-    replace (a' + 1 - 1) with a' by lia. replace (c' + 1 - 1) with c' by lia.
-    pose proof (mulv_ge a' v Hv). pose proof (mulv_ge (a' + 1) v Hv).
-    assert (c' * (a' + 1) <= c' * ((a' + 1) * v + 1)) by (apply N.mul_le_mono_l; lia).
-    replace ((a' + 1) * (c' + 1)) with (a' + 1 + c' * (a' + 1)) by ring. lia.
-Qed.
-
-Theorem mk_loop_total m e rg : wf m -> owned m e -> lr_valid rg -> loop_pa e rg <= U32MAX ->
-  exists m' t, mk_loop m e rg = Some (m', t).
-Proof.
-  intros W Ho Hr HB. unfold mk_loop.
-  assert (Hmk : forall k, not_compl k -> exists m' t, make m k = Some (m', t)) by (intros k Hk; apply make_total; auto).
-  destruct (lr_is_zero rg) eqn:Z; [eexists; eexists; reflexivity|].
-  destruct (lr_is_one rg); [eexists; eexists; reflexivity|].
-  destruct (rnode e) as [| |s|a b|x xr|a|l|l] eqn:K; try (apply Hmk; exact I); try (eexists; eexists; reflexivity).
-  pose proof (node_valid m e x xr W Ho K) as Hxr.
-  destruct (phi_loop e x xr K) as [Ep Ev]. unfold loop_pa in HB. rewrite Ep, Ev in HB.
-  destruct (flat_bounds (phi x) (vl x) xr rg (vl_pos x) (phi_ge2 x) Hxr Hr Z) as [B1 B2].
-  assert (Hrm : exists ex, lr_rmie xr rg = Some ex).
-  { unfold lr_rmie. destruct (lr_is_point rg); [eexists; reflexivity|].
-    destruct xr as [a [b|]]; [|eexists; reflexivity].
-    destruct B2 as [B2 _]. rewrite (mul32_ok (lr_start rg) (b - a)); [|lia]. cbn [bind]. eexists; reflexivity. }
-  destruct Hrm as [ex Hrm]. rewrite Hrm. cbn [bind]. destruct ex; [|apply Hmk; exact I].
-  assert (Hmul : exists r, lr_mul xr rg = Some r).
-  { unfold lr_mul. destruct (lr_is_zero xr || lr_is_zero rg); [eexists; reflexivity|].
-    destruct xr as [a [b|]], rg as [c [d|]]; cbn [lr_start] in *.
-    - destruct B2 as [_ B2]. rewrite (mul32_ok a c); [|lia]. cbn [bind]. rewrite (mul32_ok b d); [|lia]. cbn [bind]. eexists; reflexivity.
-    - rewrite (mul32_ok a c); [|lia]. cbn [bind]. eexists; reflexivity.
-    - rewrite (mul32_ok a c); [|lia]. cbn [bind]. eexists; reflexivity.
-    - rewrite (mul32_ok a c); [|lia]. cbn [bind]. eexists; reflexivity. }
-  destruct Hmul as [r Hmul]. rewrite Hmul. cbn [bind]. apply Hmk. exact I.
-Qed.
-
-(* ------------------------------------------------------------------------------------------ *)
-(** * The derivative *)
-
-Definition tot_spec (e : re) : Prop := forall m cid,
-  dwf m -> hon m -> owned m e -> pvalid (rcls e) cid = true -> phi e <= U32MAX ->
-  exists m' d, cached_deriv e m cid = Some (m', d).
-
-Lemma coc_total m x c : wf m -> owned m x -> exists k, coc x c = Some k.
-Proof.
-  intros W O. pose proof (cls_wf_owned merge_ok_holds m x W O) as Hp. unfold coc.
-  destruct (pclass_of_char (rcls x) c) as [k|] eqn:E; [exists k; reflexivity|].
-  exfalso. apply (pclass_of_char_total (rcls x) c); [apply Hp | exact E].
-Qed.
-
-Lemma tot_deriv x : tot_spec x -> forall m c, dwf m -> hon m -> owned m x -> good c -> phi x <= U32MAX ->
-  exists k m1 d1, coc x c = Some k /\ cached_deriv x m k = Some (m1, d1) /\
-    (dwf m1 /\ ext m m1 /\ owned m1 d1) /\ phi d1 <= phi x /\ hon m1.
-Proof.
-  intros Hx m c Dm Hm O Hc HB. destruct (coc_total m x c (proj1 Dm) O) as [k K].
-  destruct (coc_class merge_ok_holds m x c k (proj1 Dm) O Hc K) as [Hv _].
-  destruct (Hx m k Dm Hm O Hv HB) as (m1 & d1 & D).
-  destruct (cached_deriv_pot (counter m) x m k m1 d1 Dm Hm (nn_start m (proj1 Dm)) O Hv D) as (Q1 & Q2 & Q3 & _).
-  exists k, m1, d1. auto.
-Qed.
-
-Lemma tot_list c : good c -> forall l, (forall x, In x l -> tot_spec x) ->
-  forall m, dwf m -> hon m -> (forall x, In x l -> owned m x) -> (forall x, In x l -> phi x <= U32MAX) ->
-  exists m1 ds, deriv_list c l m = Some (m1, ds) /\
-    (dwf m1 /\ ext m m1 /\ forall d, In d ds -> owned m1 d) /\ hon m1 /\ Forall2 (fun x d => phi d <= phi x) l ds.
-Proof.
-  intros Hc. induction l as [|x t IH]; intros Hl m Dm Hm Ho HB.
-  - exists m, []. split; [reflexivity|]. split; [split; [exact Dm|]; split; [apply ext_refl | intros d []]|].
-    split; [exact Hm | constructor].
-  - destruct (tot_deriv x (Hl x (or_introl eq_refl)) m c Dm Hm (Ho x (or_introl eq_refl)) Hc (HB x (or_introl eq_refl)))
-      as (k & m2 & d & K & D & (D2 & X2 & Od) & Pd & H2).
-    destruct (IH (fun y Hy => Hl y (or_intror Hy)) m2 D2 H2
-                 (fun y Hy => ext_owned m m2 y X2 (Ho y (or_intror Hy))) (fun y Hy => HB y (or_intror Hy)))
-      as (m1 & ds & DL & (D3 & X3 & Oall) & H3 & F).
-    exists m1, (d :: ds). rewrite deriv_list_cons, K. cbn [bind]. rewrite D. cbn [bind]. rewrite DL. cbn [bind].
-    split; [reflexivity|]. split; [split; [exact D3|]; split; [eapply ext_trans; eauto|]|].
-    + intros y [<-|Hy]; [eapply ext_owned; eauto | apply Oall; exact Hy].
-    + split; [exact H3|]. constructor; [exact Pd | exact F].
-Qed.
-
-Lemma tot_body e : (forall x, In x (children (rnode e)) -> tot_spec x) ->
-  forall m c, dwf m -> hon m -> owned m e -> good c -> phi e <= U32MAX ->
-  exists m' r, deriv_body e m c = Some (m', r).
-Proof.
-  intros IH m c [W Z] Hm Oe Hc HB.
-  assert (Hch : forall x, In x (children (rnode e)) -> owned m x)
-    by (intros x Hx; apply (wf_child m W e x Oe Hx)).
-  pose proof (wf_terms m W e Oe) as We. apply wf_term_iff in We as (_ & _ & Hok & Hwt).
-  unfold deriv_body.
-  destruct (rnode e) as [| |s|e1 e2|e1 rg|e1|l|l] eqn:K; cbn [children node_ok] in *;
-    try (eexists; eexists; reflexivity).
-  - (* Concat *)
-    assert (I1 : In e1 [e1; e2]) by (cbn; auto). assert (I2 : In e2 [e1; e2]) by (cbn; auto).
-    assert (Ep : phi e = CW + N.max (phi e1 + vl e2) (pa e2)).
-    { rewrite phi_nonunion; [|rewrite is_union_node, K; reflexivity]. rewrite pa_node, K. reflexivity. }
-    pose proof (vl_pos e2) as Hv2. pose proof (phi_le e2) as Hle2.
-    destruct (tot_deriv e1 (IH e1 I1) m c (conj W Z) Hm (Hch e1 I1) Hc) as (k1 & m1 & d1 & K1 & D1 & ([W1 Z1] & X1 & Od1) & P1 & H1); [lia|].
-    rewrite K1. cbn [bind]. rewrite D1. cbn [bind].
-    pose proof (ext_owned m m1 e2 X1 (Hch e2 I2)) as Oe2.
-    destruct (concat_total d1 m1 e2 W1 Od1 Oe2) as (m2 & d1' & C2); [lia|]. rewrite C2. cbn [bind].
-    destruct (rnul e1); [|eexists; eexists; reflexivity].
-    destruct (concat_ok d1 m1 e2 m2 d1' W1 Od1 Oe2 C2) as (W2 & X2 & Od1' & _).
-    pose proof (concat_nz d1 m1 e2 m2 d1' W1 Z1 Od1 Oe2 C2) as Z2.
-    pose proof (hon_ext m1 m2 X2 (ExploreProofs.concat_cache d1 m1 e2 m2 d1' C2) H1) as H2.
-    destruct (tot_deriv e2 (IH e2 I2) m2 c (conj W2 Z2) H2 (ext_owned m1 m2 e2 X2 Oe2) Hc) as (k2 & m3 & d2 & K2 & D2 & ([W3 Z3] & X3 & Od2) & P3 & H3); [unfold CW in *; lia|].
-    rewrite K2. cbn [bind]. rewrite D2. cbn [bind]. unfold union, union_list. apply make_union_total. exact W3.
-  - (* Loop *)
-    assert (I1 : In e1 [e1]) by (cbn; auto).
-    assert (Ep : phi e = CW + lpa (phi e1) (vl e1) rg).
-    { rewrite phi_nonunion; [|rewrite is_union_node, K; reflexivity]. rewrite pa_node, K. reflexivity. }
-    pose proof (lpa_ge (phi e1) (vl e1) rg) as Hge.
-    destruct (tot_deriv e1 (IH e1 I1) m c (conj W Z) Hm (Hch e1 I1) Hc) as (k1 & m1 & d1 & K1 & D1 & ([W1 Z1] & X1 & Od1) & P1 & H1); [lia|].
-    rewrite K1. cbn [bind]. rewrite D1. cbn [bind].
-    pose proof (ext_owned m m1 e1 X1 (Hch e1 I1)) as Oe1.
-    destruct (lr_is_zero (lr_shift rg)) eqn:SZ.
-    + unfold mk_loop. rewrite SZ. cbn [bind]. rewrite concat_unfold.
-      destruct (is_empty_node d1); [eexists; eexists; reflexivity|].
-      replace (is_empty_node (m_eps m1)) with false by (rewrite (c_eps m1 (wf_consts m1 W1)); reflexivity).
-      destruct (is_eps_node d1); [eexists; eexists; reflexivity|].
-      replace (is_eps_node (m_eps m1)) with true by (rewrite (c_eps m1 (wf_consts m1 W1)); reflexivity).
-      eexists; eexists; reflexivity.
-    + destruct (shift_pot (phi e1) (vl e1) rg (vl_pos e1) Hok SZ) as [S1 S2].
-      destruct (mk_loop_total m1 e1 (lr_shift rg) W1 Oe1 (shift_valid rg Hok)) as (m2 & e2 & ML); [unfold loop_pa; lia|].
-      rewrite ML. cbn [bind].
-      destruct (mk_loop_ok m1 e1 (lr_shift rg) m2 e2 W1 Oe1 (shift_valid rg Hok) ML) as (W2 & X2 & Oe2 & _).
-      destruct (mk_loop_pot m1 e1 (lr_shift rg) m2 e2 W1 Oe1 (shift_valid rg Hok) ML) as [Q1 Q2].
-      unfold loop_pa, loop_vl in *.
-      apply (concat_total d1 m2 e2 W2 (ext_owned m1 m2 d1 X2 Od1) Oe2). lia.
-  - (* Complement *)
-    assert (I1 : In e1 [e1]) by (cbn; auto).
-    assert (Ep : phi e = CW + (1 + phi e1)).
-    { rewrite phi_nonunion; [|rewrite is_union_node, K; reflexivity]. rewrite pa_node, K. reflexivity. }
-    destruct (tot_deriv e1 (IH e1 I1) m c (conj W Z) Hm (Hch e1 I1) Hc) as (k1 & m1 & d1 & K1 & D1 & ([W1 Z1] & X1 & Od1) & P1 & H1); [lia|].
-    rewrite K1. cbn [bind]. rewrite D1. cbn [bind].
-    destruct (complement_ok m1 d1 W1 Od1) as (r' & E & _). rewrite E. cbn [bind]. eexists; eexists; reflexivity.
-  - (* Union *)
-    assert (Ep : phi e = CW + lmax pa 1 l).
-    { rewrite phi_union; [|rewrite is_union_node, K; reflexivity]. rewrite pa_node, K. reflexivity. }
-    destruct (tot_list c Hc l IH m (conj W Z) Hm Hch) as (m1 & ds & DL & ([W1 Z1] & _) & _).
-    { intros x Hx. pose proof (phi_le x). pose proof (lmax_ge pa 1 l x Hx). lia. }
-    rewrite DL. cbn [bind]. unfold union_list. apply make_union_total. exact W1.
-  - (* Inter *)
-    assert (Ep : phi e = CW + (CW + lmax phi 2 l)).
-    { rewrite phi_nonunion; [|rewrite is_union_node, K; reflexivity]. rewrite pa_node, K. reflexivity. }
-    destruct (tot_list c Hc l IH m (conj W Z) Hm Hch) as (m1 & ds & DL & ([W1 Z1] & _) & _).
-    { intros x Hx. pose proof (lmax_ge phi 2 l x Hx). lia. }
-    rewrite DL. cbn [bind]. unfold inter_list. apply make_inter_total. exact W1.
-Qed.
-
-Theorem tot_spec_all : forall e, tot_spec e.
-Proof.
-  induction e as [e IH] using re_induction.
-  intros m cid [W Z] Hm Oe Hv HB. rewrite DerivProofs.cached_deriv_unfold.
-  destruct (cache_lookup (rid e) cid (cache m)) as [r|]; [eexists; eexists; reflexivity|].
-  pose proof (cls_wf_owned merge_ok_holds m e W Oe) as Hp.
-  destruct (ppick_spec (rcls e) cid Hp Hv) as (c & Pk & Hc & Hin). rewrite Pk. cbn [bind].
-  destruct (tot_body e IH m c (conj W Z) Hm Oe Hc HB) as (m1 & r & DB). rewrite DB. cbn [bind].
-  eexists; eexists; reflexivity.
-Qed.
-
-(* no constructor call inside a class derivative panics, for a term of potential <= U32MAX *)
-Theorem cached_deriv_total e m cid :
-  dwf m -> hon m -> owned m e -> pvalid (rcls e) cid = true -> phi e <= U32MAX ->
-  exists m' d, cached_deriv e m cid = Some (m', d).
-Proof. intros. apply (tot_spec_all e); auto. Qed.
